@@ -2,14 +2,22 @@ import Driver.Loop
 import Driver.C01Mon
 import Driver.C02Mon
 import Driver.C12Mon
+import Driver.FlowMon
 open Kv
 
-/-- monitor-only driver: imports nothing generated, so it builds whatever the source looks like -/
-def dispatchMon (prop : String) (l : Line) : String :=
-  match prop with
-  | "C01" => Drv.C01.stepMon l
-  | "C02" => Drv.C02.stepMon l
-  | "C12" => Drv.C12.step l
-  | _ => "bad-op"
+structure MState where
+  c04 : Drv.Flow.MonSt := {}
+  c07 : Drv.Flow.MonSt := {}
+  deriving Inhabited
 
-def main : IO Unit := driverMain dispatchMon
+/-- monitor-only driver: imports nothing generated, so it builds whatever the source looks like -/
+def dispatchMon (st : MState) (prop : String) (l : Line) : MState × String :=
+  match prop with
+  | "C01" => (st, Drv.C01.stepMon l)
+  | "C02" => (st, Drv.C02.stepMon l)
+  | "C12" => (st, Drv.C12.step l)
+  | "C04" => let (s, r) := Drv.Flow.stepMon "C04" st.c04 l; ({ st with c04 := s }, r)
+  | "C07" => let (s, r) := Drv.Flow.stepMon "C07" st.c07 l; ({ st with c07 := s }, r)
+  | _ => (st, "bad-op")
+
+def main : IO Unit := driverMain dispatchMon {}
